@@ -91,7 +91,49 @@ def run(chk, quick_n=1500, thorough_n=40000):
         if mr != ir:
             chk.broken("correspondence: model fs_fetch after put differs from the real directory + FilesystemTransport", full)
     safe_names(chk)
+    decoded_twins(chk)
     return plain
+
+
+def decoded_twins(chk):
+    """FilesystemTransport opens the URL path as it stands (urlpath.rs: no percent-decoding). A file is put where the
+    percent-DECODED spelling of a name points - inside the directory, in a sub-directory, next to the directory - and the
+    encoded name is fetched: it must not be found there (only at the path url_join names). Role file names
+    (encode_filename) and target names with escapes."""
+    import posixpath
+    import urllib.parse
+    names_ = ["..%2Fsecret.json", "a%2Fb.json", "1.x%2F..%2F..%2Foutside.json", "%2E%2E%2Fup.json", "a%20b.json", "%61.json",
+              "sub%2F..%2Fc.json", "a%252Fb.json", "%C3%A9.json", "dir/a%2Fb", "a b", "é.bin", "x%2Fy/z%2Fw.json"]
+    for _ in range(60 if chk.tier == "quick" else 1500):
+        names_.append("".join(chk.rng.choice(["a", "b", "%2F", "%2E", "%2e", "..", ".", "%25", "%20", "/", "1", "x"])
+                              for _ in range(chk.rng.randint(1, 6))) + ".json")
+    cases, info = [], []
+    for n in dict.fromkeys(names_):
+        dec = urllib.parse.unquote(n)
+        if dec == n or dec.startswith("/") or "\x00" in dec:
+            continue
+        path = posixpath.normpath("t/" + dec)
+        comps = path.split("/")
+        if path.startswith("..") or path in (".", "t") or any(c in ("", ".", "..") for c in comps):
+            continue
+        cases.append([21, 2, C.enc(n), C.enc("twin of " + n), [C.enc(c) for c in comps]])
+        info.append((n, path))
+    if not cases:
+        return
+    mres, ires = C.run_model(cases), C.run_impl(cases)
+    for (n, path), c, mr, ir in zip(info, cases, mres, ires):
+        if ir == [9]:
+            continue
+        chk.count("decoded-twin-compared")
+        chk.seen(c, True)
+        full = {"what": "a file put where the percent-decoded spelling of a name points; the encoded name is fetched from "
+                        "file:///<fresh>/t/", "file": n, "put_at": path, "model": mr, "impl": str(ir)[:200]}
+        if mr == [1] and isinstance(ir, list) and ir and ir[0] == 0:
+            chk.violation("FilesystemTransport answered the request for %r with the file at %r: the URL path was "
+                          "percent-decoded (a role or target file name can then leave its directory, and two names share a "
+                          "file)" % (n, path), full)
+        elif mr != ir and mr != [2] and ir != [2]:
+            chk.broken("correspondence: model fs_fetch differs from FilesystemTransport on a percent-encoded name", full)
 
 
 def safe_names(chk):
